@@ -1087,3 +1087,273 @@ func R8CmpWidth(c *Ctx, floor int) {
 		}
 	}
 }
+
+// R8UnwrittenElement — no task argument is read from an element of a local array that nothing can have written.
+func R8UnwrittenElement(c *Ctx) {
+	const rule = "R8-unwritten-element"
+	c.R.Rule(rule, "in TaskPrepare (and its helpers) every element of a local fixed-size array that is read at a constant index can have been written: some store into the array uses that index, or an index the prover cannot separate from it (a fill loop that stops one short leaves the last task argument at its zero value)", 0)
+	td := c.P.Func(PkgAgent, "Agent.TaskPrepare")
+	if td == nil {
+		c.R.Anchor(rule, "agent.(*Agent).TaskPrepare")
+		return
+	}
+	n := 0
+	for _, fn := range HelperClosure(td, 1) {
+		loads := heapLoadsOf(fn)
+		for _, b := range fn.Blocks {
+			for _, in := range b.Instrs {
+				al, ok := in.(*ssa.Alloc)
+				if !ok {
+					continue
+				}
+				arr, ok := al.Type().Underlying().(*types.Pointer).Elem().Underlying().(*types.Array)
+				if !ok || arr.Len() > 64 {
+					continue
+				}
+				type acc struct {
+					ia    *ssa.IndexAddr
+					write bool
+					read  bool
+				}
+				var accs []acc
+				escapes := false
+				for _, r := range *al.Referrers() {
+					ia, ok := r.(*ssa.IndexAddr)
+					if !ok {
+						if _, isDbg := r.(*ssa.DebugRef); !isDbg {
+							escapes = true // sliced, copied, passed on: writes are not visible here
+						}
+						continue
+					}
+					a := acc{ia: ia}
+					for _, r2 := range *ia.Referrers() {
+						switch u := r2.(type) {
+						case *ssa.Store:
+							if u.Addr == ssa.Value(ia) {
+								a.write = true
+							} else {
+								escapes = true
+							}
+						case *ssa.UnOp:
+							a.read = true
+						default:
+							escapes = true
+						}
+					}
+					accs = append(accs, a)
+				}
+				if escapes {
+					continue
+				}
+				hasWrite := false
+				for _, a := range accs {
+					if a.write {
+						hasWrite = true
+					}
+				}
+				if !hasWrite {
+					continue // a zero-valued array used as such
+				}
+				for _, a := range accs {
+					k, isC := ConstInt(a.ia.Index)
+					if !a.read || !isC {
+						continue
+					}
+					n++
+					may := false
+					for _, w := range accs {
+						if !w.write {
+							continue
+						}
+						if wk, wc := ConstInt(w.ia.Index); wc {
+							if wk == k {
+								may = true
+							}
+							continue
+						}
+						pr := newProver(c, loads, fn, w.ia.Block())
+						t := pr.norm(w.ia.Index)
+						if !t.ok {
+							may = true
+							continue
+						}
+						below := pr.g.prove(t.sym, "0", k-1-t.off) // idx <= k-1
+						above := pr.g.prove("0", t.sym, t.off-k-1) // idx >= k+1
+						if !below && !above {
+							may = true
+						}
+					}
+					construct := AccessPath(al) + "[" + itoa(int(k)) + "] read"
+					if al.Comment != "" {
+						construct = al.Comment + "[" + itoa(int(k)) + "] read"
+					}
+					if may {
+						c.R.Ok(rule, FuncShort(fn), construct, c.pos(a.ia.Pos()), "some store can write this element", true)
+					} else {
+						c.R.Bad(rule, FuncShort(fn), construct, c.pos(a.ia.Pos()), "no store into the array can reach this index (every written index is provably different): the element still holds its zero value when it is packed into the task")
+					}
+				}
+			}
+		}
+	}
+	c.R.Extra["R8-unwritten-element.reads"] = n
+}
+
+// R8SizeField — the size field of a task frame is the length of the body that follows it.
+func R8SizeField(c *Ctx) {
+	const rule = "R8-size-field"
+	c.R.Rule(rule, "in BuildPayloadMessage one of the 4-byte header fields is written from uint32(len(B)) where B is the very buffer handed to XCryptBytesAES256 for that task (the same SSA value): the Demon cuts the task stream by this field, a size computed any other way (an estimate, another buffer) mis-frames the task and every task after it", 1)
+	bpm := c.P.Func(PkgAgent, "BuildPayloadMessage")
+	if bpm == nil {
+		c.R.Anchor(rule, "agent.BuildPayloadMessage")
+		return
+	}
+	var bodies []ssa.Value
+	var sizes []ssa.Value
+	var firstPut token.Pos
+	for _, fn := range HelperClosure(bpm, 1) {
+		EachCall(fn, func(call ssa.CallInstruction) {
+			args := call.Common().Args
+			switch CalleeName(call) {
+			case "Havoc/pkg/common/crypt.XCryptBytesAES256":
+				if len(args) == 3 {
+					bodies = append(bodies, args[0])
+				}
+			case "(encoding/binary.littleEndian).PutUint32":
+				if len(args) == 3 {
+					if firstPut == token.NoPos {
+						firstPut = call.Pos()
+					}
+					v := args[2]
+					for {
+						if cv, ok := v.(*ssa.Convert); ok {
+							v = cv.X
+							continue
+						}
+						break
+					}
+					if arg, isLen := isLenCall(v); isLen {
+						sizes = append(sizes, arg)
+					}
+				}
+			}
+		})
+	}
+	if len(bodies) == 0 {
+		c.R.Anchor(rule, "the XCryptBytesAES256(body, …) call of BuildPayloadMessage")
+		return
+	}
+	same := func(a, b ssa.Value) bool {
+		if a == b {
+			return true
+		}
+		// two loads of one local cell with no store in between are rare here; phis of identical edges
+		pa, oka := a.(*ssa.Phi)
+		pb, okb := b.(*ssa.Phi)
+		if oka && okb && pa.Block() == pb.Block() && len(pa.Edges) == len(pb.Edges) {
+			for i := range pa.Edges {
+				if pa.Edges[i] != pb.Edges[i] {
+					return false
+				}
+			}
+			return true
+		}
+		return false
+	}
+	ok := false
+	for _, s := range sizes {
+		for _, b := range bodies {
+			if same(s, b) {
+				ok = true
+			}
+		}
+	}
+	construct := "size field = uint32(len(<body>))"
+	if ok {
+		c.R.Ok(rule, FuncShort(bpm), construct, c.pos(firstPut), "the size written is the length of the buffer that is encrypted and appended", true)
+	} else {
+		c.R.Bad(rule, FuncShort(bpm), construct, c.pos(firstPut), "no header field is written from len() of the buffer handed to XCryptBytesAES256: the size the Demon reads does not have to equal the number of body bytes that follow, and the rest of the batch is mis-framed")
+	}
+}
+
+// R14TableReach — every entry of a local lookup table can be selected.
+func R14TableReach(c *Ctx) {
+	const rule = "R14-table-reach"
+	c.R.Rule(rule, "in TaskDispatch/TaskPrepare (and helpers) a table written as a composite literal and only ever indexed under range guards has no entry that the guards make unreachable: if every index into it is provably below its last position (or above its first), the table and the guard disagree by one and the value that should map to that entry is reported as unknown", 0)
+	n := 0
+	for _, ref := range []string{"Agent.TaskDispatch", "Agent.TaskPrepare"} {
+		root := c.P.Func(PkgAgent, ref)
+		if root == nil {
+			c.R.Anchor(rule, "agent.(*Agent)."+ref)
+			continue
+		}
+		for _, fn := range HelperClosure(root, 1) {
+			loads := heapLoadsOf(fn)
+			for _, b := range fn.Blocks {
+				for _, in := range b.Instrs {
+					sl, ok := in.(*ssa.Slice)
+					if !ok || sl.Low != nil || sl.High != nil {
+						continue
+					}
+					al, ok := sl.X.(*ssa.Alloc)
+					if !ok || al.Comment != "slicelit" {
+						continue
+					}
+					arr, ok := al.Type().Underlying().(*types.Pointer).Elem().Underlying().(*types.Array)
+					if !ok || arr.Len() < 2 {
+						continue
+					}
+					N := arr.Len()
+					var uses []*ssa.IndexAddr
+					other := false
+					for _, r := range *sl.Referrers() {
+						switch u := r.(type) {
+						case *ssa.IndexAddr:
+							if _, isC := ConstInt(u.Index); isC {
+								other = true
+							}
+							uses = append(uses, u)
+						case *ssa.DebugRef:
+						case *ssa.Call:
+							if bi, isB := u.Call.Value.(*ssa.Builtin); isB && bi.Name() == "len" {
+								continue
+							}
+							other = true
+						default:
+							other = true // ranged over, passed on, stored: every entry is reachable some other way
+						}
+					}
+					if other || len(uses) == 0 {
+						continue
+					}
+					n++
+					allBelow, allAbove := true, true
+					for _, u := range uses {
+						pr := newProver(c, loads, fn, u.Block())
+						t := pr.norm(u.Index)
+						if !t.ok {
+							allBelow, allAbove = false, false
+							break
+						}
+						if !pr.g.prove(t.sym, "0", N-2-t.off) { // idx <= N-2
+							allBelow = false
+						}
+						if !pr.g.prove("0", t.sym, t.off-1) { // idx >= 1
+							allAbove = false
+						}
+					}
+					construct := "table of " + itoa(int(N)) + " entries indexed under guards"
+					switch {
+					case allBelow:
+						c.R.Bad(rule, FuncShort(fn), construct, c.pos(uses[0].Pos()), "every index into the table is provably below its last position: the last entry can never be selected (guard and table disagree by one)")
+					case allAbove:
+						c.R.Bad(rule, FuncShort(fn), construct, c.pos(uses[0].Pos()), "every index into the table is provably above its first position: the first entry can never be selected")
+					default:
+						c.R.Ok(rule, FuncShort(fn), construct, c.pos(uses[0].Pos()), "first and last entry are within reach of the guards", true)
+					}
+				}
+			}
+		}
+	}
+	c.R.Extra["R14-table-reach.tables"] = n
+}
